@@ -422,7 +422,7 @@ def s4_aggregates(ctx):
             continue
         n += 1
         total, its, ifs = ls
-        ctx.require(all(i in ('self.positions.items()', 'self.positions.values()') for i in its) and its, 'C03.S4', '%s ranges over every open position' % qn, fn.site(),
+        ctx.require(all(i in ('self.positions.items()', 'self.positions.values()', 'self.positions', 'self.positions.keys()') for i in its) and its, 'C03.S4', '%s ranges over every open position' % qn, fn.site(),
                     'iterates %s' % its, key='C03.S4|%s|iter' % name)
         ctx.require(not ifs, 'C03.S4', '%s skips no position' % qn, fn.site(), [fmt(q) for q in ifs], key='C03.S4|%s|filter' % name)
         ctx.require(any(T.teq(total, e) for e in exps), 'C03.S4', '%s sums the positions\' %s' % (qn, fmt(exps[0]).split('.')[-1]), fn.site(),
@@ -445,6 +445,14 @@ def s3_remark(ctx):
     ps = summarise(ctx, 'Position.update_current_price', policy=default_policy)
     for p in ps:
         bad = [w for w in heap_writes(p) if loc_attr(w.loc) not in ('current_price', 'current_dt')]
+        # (a field the pinned tree does not have - a revision counter, a kept figure - is not one of the position's accounting fields: how it is kept is judged by
+        # the rules about kept state)
+        try:
+            from ..model import _baseline
+            base_ = {f_ for fs_ in (_baseline().get('fields') or {}).values() for f_ in fs_}
+            bad = [w for w in bad if loc_attr(w.loc) in base_]
+        except Exception:
+            pass
         ctx.require(not bad, 'C03.S3', 're-marking writes only the price and the clock [%s]' % cond_str(p), bad[0].site if bad else None,
                     [fmt(w.loc) for w in bad], key='C03.S3|writes')
     ctx.floor('C03.S3', 'paths of update_current_price', len(ps), 2)
